@@ -227,7 +227,9 @@ class Exec:
     def e_Set(self, e, st):
         items = [self.ev(x, st) for x in e.elts]
         el = type_of(items[0]) if items else INT
-        return st.alloc(SSet(lambda x, items=items: OR(*[EQ(x, it) for it in items]), el))
+        S = SSet(lambda x, items=items: OR(*[EQ(x, it) for it in items]), el)
+        S.display_items = items
+        return st.alloc(S)
 
     def e_Dict(self, e, st):
         if e.keys:
@@ -481,6 +483,10 @@ class Exec:
             elif on == 'BitOr': r = SSet(lambda x: OR(pa_.member(x), pb.member(x)), pa_.elem)
             elif on == 'Sub': r = SSet(lambda x: AND(pa_.member(x), NOT(pb.member(x))), pa_.elem)
             else: raise Unsupported('set op ' + on)
+            if on == 'Sub' and getattr(pa_, 'from_range', False):
+                r.from_range = True       # still a set of ints taken from one range(...): see A-SETORDER in b_list
+                if getattr(pa_, 'range_bounds', None) is not None and len(getattr(pb, 'display_items', ())) == 1 and getattr(pa_, 'range_removed', None) is None:
+                    r.range_bounds, r.range_removed = pa_.range_bounds, pb.display_items[0]
             self.np.card_lemmas(on, pa_, pb, r, st)
             return st.alloc(r)
         if isinstance(pa_, SList) and isinstance(pb, SList) and on == 'Add':
@@ -1048,7 +1054,7 @@ class Exec:
         result = None
         post = []
         defined = False
-        for cl in c.of('ensures'):
+        for cl in c.of('ensures') + c.of('ensures_assumed'):
             for a in cl.args:
                 d = self.definitional(a, loc, rt)
                 if d is not None and not defined:
